@@ -20,3 +20,4 @@ open Verif.Props.C03
 #print axioms doc_tags_allowed
 #print axioms tag_classes_counterexample
 #print axioms Verif.Proofs.HtmlOptional.p_tables_ok
+#print axioms attr_value_preserved
